@@ -189,3 +189,39 @@ Example C13_temphp_inhabited :
   /\ tr_surf_positions s 9 144 = [12; 84] /\ words_at (t_enc tc) 84 2 = [11; 12]
   /\ tr_air_positions s 9 144 = [24; 96] /\ air_at (t_enc tc) 96 2 2 = [[13; 14]; [15; 16]].
 Proof. vm_compute. repeat split; reflexivity. Qed.
+
+(* ======================================================================================================
+   CAMx WIND files, Model/Wind.v: the record reader's seek arithmetic TRANSLATED from camxfiles/wind/Read.py
+   (wr_ definitions of Gen/Camx.v)
+   ====================================================================================================== *)
+From PNC Require Import Model.Wind Proofs.WindProofs.
+
+Theorem C13_wind_recordposition_is_spec_offset : forall (self : wr_self) t k duv d tm,
+  0 < wr_nlayers self -> duv = 1 \/ duv = 2 -> wr_data_start_byte self = 0 ->
+  Z.quot (tt_timediff (wr_start_date self, wr_start_time self) (d, tm) 2400) (wr_time_step self) = t ->
+  wr_recordposition self d tm k duv
+  = w_spec_record_offset (wr_padded_time_hdr_size self) (wr_padded_size self) (wr_nlayers self) t k duv.
+Proof. exact wr_recordposition_spec. Qed.
+Print Assumptions C13_wind_recordposition_is_spec_offset.
+
+(* both wind readers present the same cells *)
+Theorem C13_wind_readers_agree_on_data : forall c (self : wr_self) S1 s S2 P1 u v P2 d tm duv, w_wf c = true ->
+  w_steps c = S1 ++ s :: S2 -> ws_uv s = P1 ++ (u, v) :: P2 ->
+  wr_nlayers self = w_nz c -> wr_data_start_byte self = 0 ->
+  wr_padded_time_hdr_size self = w_hdr_bytes c -> wr_padded_size self = w_data_bytes c ->
+  Z.quot (tt_timediff (wr_start_date self, wr_start_time self) (d, tm) 2400) (wr_time_step self)
+    = Z.of_nat (length S1) ->
+  duv = 1 \/ duv = 2 ->
+  w_cells_at (w_enc c) (wr_recordposition self d tm (Z.of_nat (length P1) + 1) duv) (w_nx c * w_ny c)
+  = if duv =? 1 then u else v.
+Proof. exact w_readers_agree. Qed.
+Print Assumptions C13_wind_readers_agree_on_data.
+
+Example C13_wind_inhabited :
+  let c := {| w_nx := 2; w_ny := 1; w_nz := 2; w_stag := Some 1; w_dummy := 0;
+              w_steps := [WStep 1120403456 4001 [([1; 2], [3; 4]); ([5; 6], [7; 8])];
+                          WStep 1128792064 4001 [([11; 12], [13; 14]); ([15; 16], [17; 18])]] |} in
+  let self := {| wr_start_date := 4001; wr_start_time := 100; wr_time_step := 100; wr_nlayers := 2; wr_data_start_byte := 0;
+                 wr_padded_time_hdr_size := 20; wr_padded_size := 16 |} in
+  w_wf c = true /\ wr_recordposition self 4001 200 2 2 = 164 /\ w_cells_at (w_enc c) 164 2 = [17; 18].
+Proof. vm_compute. repeat split; reflexivity. Qed.
